@@ -25,7 +25,7 @@ def install():
         raise RuntimeError('recorders are only installed when TATSU_VERIF=1')
     from tatsu.contexts import core
     from tatsu.contexts.tracing import NullTracer
-    from .frompeg import Unsupported, boot_rules, project
+    from .frompeg import Unsupported, boot_rules, finish_tables, project
     from .recorder import proj
     if os.environ.get('VERIF_TRACE_BOOT', '1') == '1':
         boot_rules()          # compiled before any recorder is installed
@@ -37,6 +37,7 @@ def install():
             self.head = None
             self.skip = None
             self.keep = []
+            self.patpos = set()
             self.start = None
 
         def _first(self, ctx):
@@ -92,6 +93,7 @@ def install():
             if not last or last['rule'] != rec.start or last['ev'] not in ('ok', 'fail'):
                 line = {'skip': 'parse aborted by a foreign exception (trace has no final outcome event)', 'src': src}
             else:
+                finish_tables(rec.head, rec.patpos)
                 line = dict(rec.head, start=rec.start, ok=last['ev'] == 'ok', ev=evs, src=src)
         with open(out, 'a') as f:
             f.write(json.dumps(line) + '\n')
@@ -116,6 +118,16 @@ def install():
         rec.keep.append(res)                            # keep action results alive: identities are part of the trace
         return res
     _engine.ParserEngine.semantics_call = semantics_call
+    from tatsu.contexts import context as _context
+    orig_pat = _context.ParseContext.pattern
+
+    def pattern(self, pattern):
+        rec = getattr(self, 'tracer', None)
+        if isinstance(rec, Rec):
+            rec.patpos.add(self.pos)           # where regexes are tried: the rows of the oracle table (not an event)
+        return orig_pat(self, pattern)
+    _context.ParseContext.pattern = pattern
+    _context.ParseContext._pattern = pattern
     orig_const = _engine.ParserEngine.constant
 
     def constant(self, literal, capture=True):
